@@ -410,7 +410,27 @@ pub fn gen_history(rng: &mut StdRng, regime: Regime, origins: u8, per: usize, ke
                 };
                 t += step * 4;
                 let c = rng.gen_range(0..2u16);
-                let stamp = ts(t, c, o);
+                let plain = ts(t, c, o);
+                let mut stamp = plain;
+                // same instant on another node: the node id alone decides (tie-break cases)
+                if rng.gen_bool(0.15) {
+                    let others: Vec<HLCTimestamp> = used
+                        .iter()
+                        .filter(|u: &&HLCTimestamp| u.node() != o)
+                        .map(|u| ts(u.datacake_timestamp().as_millis() as u64, u.counter(), o))
+                        .filter(|cand| !used.contains(cand) && v.last().map_or(true, |l: &(u64, HLCTimestamp, bool)| l.1 < *cand))
+                        .collect();
+                    if let Some(pick) = others.choose(rng) {
+                        // in the prefix regime the origin's own stamps must keep increasing: only
+                        // adopt an instant that does not lie before the step just taken
+                        if regime == Regime::Window || *pick >= ts(t.saturating_sub(step * 4), 0, o) {
+                            stamp = *pick;
+                            if regime == Regime::Prefix {
+                                t = pick.datacake_timestamp().as_millis() as u64;
+                            }
+                        }
+                    }
+                }
                 if used.insert(stamp) {
                     v.push((rng.gen_range(0..keys), stamp, rng.gen_bool(0.45)));
                     break;
